@@ -631,11 +631,11 @@ def run(ctx):
 
     known = {k["key"]: k for k in ctx.known.for_property("C12")}
     corpus = [{"id": "f7", "mode": "L", "cls": "corpus:F7", "line": F7_REPLAY, "ops": F7_REPLAY.split("|O:")[1].split(), "docs": []}]
-    cases = corpus + make_cases(ctx, 2 if not ctx.thorough else 16, impl)
+    cases = corpus + make_cases(ctx, 3 if not ctx.thorough else 48, impl)
     ctx.cov["samples"] = [c["line"][:300] for c in cases[:3] + cases[len(cases) // 2: len(cases) // 2 + 3]]
     corr, orc = evaluate(ctx, cases, impl, model)
     try:
-        orc += evaluate_s(ctx, 60 if not ctx.thorough else 600)
+        orc += evaluate_s(ctx, 80 if not ctx.thorough else 1500)
     except RuntimeError as e:
         ctx.broken.append("stylesheet stream: " + str(e)[-300:])
     new = [o for o in orc if not (o["known"] and o["known"] in known)]
